@@ -76,7 +76,10 @@ type RR_Header struct {
 func (h *RR_Header) Header() *RR_Header { return h }
 
 // Just to implement the RR interface.
-func (h *RR_Header) copy() RR { return nil }
+func (h *RR_Header) copy() RR {
+	c := *h
+	return &c
+}
 
 func (h *RR_Header) String() string {
 	var s string
